@@ -19,6 +19,10 @@ impl<K: VKey, V> HashMap<K, V> {
             match r { Some(p) => old(self)@.contains_key(k.vkey()) && p == old(self)@[k.vkey()], None => !old(self)@.contains_key(k.vkey()) }
     { unimplemented!() }
     #[verifier::external_body]
+    pub fn get_key_value(&self, k: &K) -> (r: Option<(&K, &V)>)
+        ensures match r { Some(kv) => self@.contains_key(k.vkey()) && *kv.1 == self@[k.vkey()] && kv.0.vkey() == k.vkey(), None => !self@.contains_key(k.vkey()) }
+    { unimplemented!() }
+    #[verifier::external_body]
     pub fn remove(&mut self, k: &K) -> (r: Option<V>)
         ensures final(self)@ == old(self)@.remove(k.vkey()),
             match r { Some(p) => old(self)@.contains_key(k.vkey()) && p == old(self)@[k.vkey()], None => !old(self)@.contains_key(k.vkey()) }
